@@ -144,6 +144,38 @@ def _derived_from_param(expr, params, derived):
     return False
 
 
+def _map_partial_site(m, par, f, callee):
+    """
+    `map(partial(F, **kw), P or <empty>)` where F is the recursive callee, P is an (unre-bound so far) parameter of the
+    enclosing function and also the name of F's first positional parameter, which no keyword of the partial binds:
+    each call F(x) gets an element x of P in the place of P  ->  (ok, why-not)
+    """
+    up = par.get(id(m))
+    if not (isinstance(up, ast.Call) and ast.unparse(up.func) in ("partial", "functools.partial") and len(up.args) == 1 and up.args[0] is m):
+        return False, "line %d: the reference is not the sole positional argument of partial(...)" % m.lineno
+    ca = callee.node.args
+    pos = [x.arg for x in ca.posonlyargs + ca.args]
+    if not pos:
+        return False, "callee has no positional parameter"
+    first = pos[0]
+    if any(k.arg is None or k.arg == first for k in up.keywords):
+        return False, "line %d: partial(...) binds `%s` (or passes **kwargs), so the mapped element is not the measured argument" % (m.lineno, first)
+    up2 = par.get(id(up))
+    if not (isinstance(up2, ast.Call) and isinstance(up2.func, ast.Name) and up2.func.id == "map" and len(up2.args) == 2 and up2.args[0] is up and not up2.keywords):
+        return False, "line %d: partial(...) is not the function argument of a two-argument map(...)" % m.lineno
+    it = up2.args[1]
+    if isinstance(it, ast.BoolOp) and isinstance(it.op, ast.Or) and all(ast.unparse(v) in ("iter(())", "()", "[]", "tuple()") for v in it.values[1:]):
+        it = it.values[0]
+    a = f.node.args
+    fparams = {x.arg for x in a.posonlyargs + a.args + a.kwonlyargs}
+    if not (isinstance(it, ast.Name) and it.id == first and it.id in fparams):
+        return False, "line %d: the mapped iterable `%s` is not the parameter `%s`" % (m.lineno, ast.unparse(it)[:40], first)
+    rebound = [n.lineno for n in _own_nodes(f) if isinstance(n, ast.Name) and n.id == first and isinstance(n.ctx, ast.Store) and n.lineno <= m.lineno]
+    if rebound:
+        return False, "`%s` is re-bound (line %s) before the mapped call at line %d" % (first, rebound, m.lineno)
+    return True, ""
+
+
 def recursion_obligations(graph, measures):
     """
     measures: {frozenset(component ids) or single id: {"measure": text, "sites": {"callee@ordinal": "structural"|"assumed: why"}}}
@@ -225,6 +257,9 @@ def recursion_obligations(graph, measures):
                 how = decl.get("sites", {}).get(site)
                 if how is None:
                     obs.append(("recursion.decreases@%s" % site, None, "indirect recursive reference %s (line %d) is not covered by the declared measure" % (site, m.lineno)))
+                elif how == "structural-map":
+                    ok, why = _map_partial_site(m, _parents(f.node), f, graph.funcs[graph.resolve_dotted(graph.dotted_of(f.mod, m, f.locals))])
+                    obs.append(("recursion.decreases@%s" % site, ok, ("map(partial(f, **kw), P): every recursive call receives one ELEMENT of the parameter P as P (measure: %s)" % decl["measure"]) if ok else why))
                 else:
                     assumed.append("recursion %s: measure '%s' NOT discharged (%s) — backed only by the bounded watchdog" % (site, decl["measure"], how))
     return obs, assumed
